@@ -247,6 +247,37 @@ func c14(args []string) {
 			} else if o.OK() {
 				cell["st"], cell["msg"] = "harness", "the wrapper did not return three objects"
 			}
+			// the same call once more from inside a function whose predicate, the first time it is called, enters the same
+			// form again (another sequence, the whole of it): what the outer call returns is a function of its own arguments
+			isIf := strings.HasSuffix(r.Fn, "-if") || strings.HasSuffix(r.Fn, "-if-not")
+			if isIf && !strings.HasPrefix(r.Fn, "delete") && (r.KW.St >= 0 || r.KW.En >= 0) && r.ID%5 == 0 && o.OK() {
+				pred := "#'oddp"
+				if kind == "string" {
+					pred = "(lambda (c) (oddp (char-code c)))"
+				}
+				name := fmt.Sprintf("vre-%d-%s", r.ID, kind)
+				callp := call
+				st, en := "0", "nil"
+				if r.KW.St >= 0 {
+					callp = strings.Replace(callp, fmt.Sprintf(" :start %d", r.KW.St), " :start vst", 1)
+					st = fmt.Sprint(r.KW.St)
+				}
+				if r.KW.En >= 0 {
+					callp = strings.Replace(callp, fmt.Sprintf(" :end %d", r.KW.En), " :end ven", 1)
+					en = fmt.Sprint(r.KW.En)
+				}
+				callp = strings.Replace(callp, " "+pred+" ", fmt.Sprintf(" (lambda (c) (when vdeep (setq vdeep nil) (%s (reverse seq-a) seq-b 0 (length seq-a) nil)) (funcall %s c)) ", name, pred), 1)
+				if callp != call && strings.Contains(callp, "vdeep") {
+					h.Eval(s, fmt.Sprintf("(defun %s (seq-a seq-b vst ven vdeep) %s)", name, callp))
+					o2 := h.Eval(s, fmt.Sprintf("(let ((seq-a %s) (seq-b %s)) (%s seq-a seq-b %s %s t))", c14Lit(kind, r.A), c14Lit(kind, r.B), name, st, en))
+					if o2.OK() {
+						cell["re"] = h.Project(o2.Val)
+					} else {
+						cell["re"] = h.V{"k": "error", "v": o2.Class}
+					}
+					h.Eval(s, fmt.Sprintf("(fmakunbound '%s)", name))
+				}
+			}
 			res[kind] = cell
 		}
 		out.Emit(h.V{"t": r.ID, "res": res})
